@@ -11,7 +11,7 @@ attached or detached arguments, visitor raising at each node).
 from __future__ import annotations
 
 from ..core import Rec
-from ..explore import explore
+from ..explore import explore, judged_step
 from ..legacy_model import Model
 
 PID = "C19"
@@ -56,5 +56,5 @@ def replay(case, cfg):
     for op in hist[:-1]:
         if m.apply(w, op, None, None) != "ok":
             return []
-    m.apply(w, hist[-1], rec, tuple(hist[:-1]))
+    judged_step(m, w, hist[-1], rec, tuple(hist[:-1]), cfg)
     return rec.result()["violations"]
